@@ -912,6 +912,11 @@ class _CopyFromZipFileExecutor:
         return f"{type(self).__name__}({self.root} -> {self.job})"
 
 
+def _zip_path_is_below(name, parent):
+    """Determine whether name is parent itself or located below it in a zip archive."""
+    return not parent or name == parent or name.startswith(parent + "/")
+
+
 def _analyze_zipfile_for_import(zipfile, project, schema):
     """Validate paths in zipfile.
 
@@ -984,7 +989,7 @@ def _analyze_zipfile_for_import(zipfile, project, schema):
     for name in sorted(dirs):
         cont = False
         for skip in skip_subdirs:
-            if name.startswith(skip):
+            if _zip_path_is_below(name, skip):
                 cont = True
                 break
         if cont:
@@ -1005,7 +1010,7 @@ def _analyze_zipfile_for_import(zipfile, project, schema):
         )
 
     for src, job in mappings.items():
-        _names = [name for name in names if name.startswith(src)]
+        _names = [name for name in names if _zip_path_is_below(name, src)]
         copy_executor = _CopyFromZipFileExecutor(zipfile, src, job, _names)
         yield src, copy_executor
 
